@@ -412,3 +412,362 @@ fn run_fib_case(case: &Val) -> Val {
 fn verif_fib_cases() {
     val::run_cases(run_fib_case);
 }
+
+// ------------------------------------------------------------------ C18
+// Real threads run the real TableManager code; a deterministic scheduler grants
+// one step at a time in the order the case dictates.  A step is the stretch of
+// code between two scheduling points (verif_sched::point in table_manager.rs
+// before every shard-lock acquisition, plus one here before every operation).
+use std::sync::Condvar;
+use std::time::Duration;
+
+struct SchedState {
+    turn: Option<usize>,
+    parked: Vec<bool>,
+    done: Vec<bool>,
+    dead: bool,
+}
+struct Sched {
+    st: Mutex<SchedState>,
+    cv: Condvar,
+}
+const SCHED_WAIT: Duration = Duration::from_secs(20);
+
+impl Sched {
+    fn new(n: usize) -> Sched {
+        Sched {
+            st: Mutex::new(SchedState {
+                turn: None,
+                parked: vec![false; n],
+                done: vec![false; n],
+                dead: false,
+            }),
+            cv: Condvar::new(),
+        }
+    }
+    /// called by thread `i` at a scheduling point: wait for the next grant
+    fn park(&self, i: usize) {
+        let mut g = self.st.lock().unwrap();
+        g.parked[i] = true;
+        self.cv.notify_all();
+        while g.turn != Some(i) {
+            if g.dead {
+                panic!("verif: scheduler abandoned the case");
+            }
+            let (ng, to) = self.cv.wait_timeout(g, SCHED_WAIT).unwrap();
+            g = ng;
+            if to.timed_out() && g.turn != Some(i) {
+                g.dead = true;
+                self.cv.notify_all();
+                panic!("verif: thread {} starved at a scheduling point", i);
+            }
+        }
+        g.turn = None;
+    }
+    fn finish(&self, i: usize) {
+        let mut g = self.st.lock().unwrap();
+        g.done[i] = true;
+        self.cv.notify_all();
+    }
+    /// scheduler side: wait until thread `i` is parked or done
+    fn settle(&self, i: usize) -> bool {
+        let mut g = self.st.lock().unwrap();
+        while !(g.parked[i] || g.done[i]) {
+            let (ng, to) = self.cv.wait_timeout(g, SCHED_WAIT).unwrap();
+            g = ng;
+            if to.timed_out() && !(g.parked[i] || g.done[i]) {
+                g.dead = true;
+                self.cv.notify_all();
+                panic!("verif: thread {} did not reach a scheduling point (deadlock?)", i);
+            }
+        }
+        g.done[i]
+    }
+    /// grant one step to thread `i`; false when it has already finished
+    fn grant(&self, i: usize) -> bool {
+        if self.settle(i) {
+            return false;
+        }
+        {
+            let mut g = self.st.lock().unwrap();
+            g.parked[i] = false;
+            g.turn = Some(i);
+            self.cv.notify_all();
+        }
+        self.settle(i);
+        true
+    }
+}
+
+struct SubWorld {
+    tm: TableManager,
+    srcs: Vec<Arc<table::Source>>,                 // index = peer
+    attrs: Vec<Arc<Vec<packet::Attribute>>>,       // index = token
+    nets: [[packet::Nlri; 4]; 2],                  // [shard][index]
+    pols: Vec<Arc<table::PolicyAssignment>>,
+    ctrs: Vec<Arc<std::sync::atomic::AtomicU64>>,  // index = peer
+    lims: Vec<Option<u32>>,
+}
+
+fn sub_net(w: &SubWorld, sh: usize, ix: usize) -> packet::Nlri {
+    w.nets[sh.min(1)][ix % 4].clone()
+}
+fn sub_key(w: &SubWorld, src: &table::Source, n: &packet::PathNlri) -> Val {
+    let peer = w.srcs.iter().position(|s| s.remote_addr == src.remote_addr).map(|x| x as i128).unwrap_or(-1);
+    let mut pos = (-1i128, -1i128);
+    for sh in 0..2 {
+        for ix in 0..4 {
+            if w.nets[sh][ix] == n.nlri {
+                pos = (sh as i128, ix as i128);
+            }
+        }
+    }
+    Val::L(vec![Val::I(peer), Val::I(pos.0), Val::I(pos.1), Val::n(n.path_id)])
+}
+fn sub_tok(w: &SubWorld, a: &Arc<Vec<packet::Attribute>>) -> Val {
+    Val::I(w.attrs.iter().position(|x| Arc::ptr_eq(x, a)).map(|x| x as i128).unwrap_or(-1))
+}
+
+fn sub_do_op(w: &SubWorld, op: &Val, slot: &Mutex<Option<Subscription>>) {
+    let path = |op: &Val| {
+        let peer = op.at(1).usize();
+        let n = sub_net(w, op.at(2).usize(), op.at(3).usize());
+        (
+            peer,
+            packet::PathNlri {
+                nlri: n,
+                path_id: op.at(4).u32(),
+            },
+        )
+    };
+    match op.at(0).u32() {
+        0 => {
+            let s = w.tm.subscribe(true);
+            *slot.lock().unwrap() = Some(s);
+        }
+        1 => {
+            let (peer, net) = path(op);
+            let pl = w.lims[peer].map(|m| (m, w.ctrs[peer].clone()));
+            w.tm.insert_route(
+                w.srcs[peer].clone(),
+                Family::IPV4,
+                net,
+                Some(bgp::Nexthop::V4(nh_addr(peer as u32))),
+                w.attrs[op.at(5).usize()].clone(),
+                pl,
+                7,
+            );
+        }
+        2 => {
+            let (peer, net) = path(op);
+            let ctr = w.lims[peer].map(|_| w.ctrs[peer].clone());
+            w.tm.remove_route(w.srcs[peer].clone(), Family::IPV4, net, ctr, 7);
+        }
+        3 => {
+            let p = op.at(1).usize();
+            let open = bgp::Message::Open(bgp::Open {
+                as_number: 65000 + p as u32,
+                holdtime: bgp::HoldTime::DISABLED,
+                router_id: p as u32,
+                capability: vec![],
+            });
+            w.tm.peer_up(PeerUpData {
+                peer_addr: peer_addr(p as u32),
+                peer_asn: 65000 + p as u32,
+                peer_id: p as u32,
+                uptime: 0,
+                local_addr: IpAddr::V4(Ipv4Addr::new(127, 0, 0, 1)),
+                local_port: 179,
+                remote_port: 179,
+                sent_open: open.clone(),
+                received_open: open,
+            });
+        }
+        4 => {
+            // the session-down glue of event/mod.rs: unregister_peer, then peer_down
+            let p = op.at(1).usize();
+            w.tm.unregister_peer(peer_addr(p as u32), &[Family::IPV4], &[]);
+            verif_sched::point(0);
+            w.tm.peer_down(PeerDownData {
+                peer_addr: peer_addr(p as u32),
+                peer_asn: 65000 + p as u32,
+                peer_id: p as u32,
+                uptime: 0,
+                reason: packet::bmp::PeerDownReason::RemoteUnexpected,
+            });
+            w.ctrs[p].store(0, std::sync::atomic::Ordering::Relaxed); // the session's counter dies with it
+        }
+        5 => w.tm.soft_reset_in(peer_addr(op.at(1).u32())),
+        6 => {
+            let k = op.at(1).usize();
+            if k == 0 || k > w.pols.len() {
+                w.tm.import_policy.store(None);
+            } else {
+                w.tm.import_policy.store(Some(w.pols[k - 1].clone()));
+            }
+        }
+        _ => panic!("verif: unknown op"),
+    }
+}
+
+/// case = [[pols, lims], progs, sched]
+fn run_sub_case(case: &Val) -> Val {
+    const NPEER: usize = 4;
+    let tm = TableManager::new(2);
+    // concrete prefixes for (shard, index)
+    let mut found: [Vec<packet::Nlri>; 2] = [vec![], vec![]];
+    let mut x = 1u32;
+    while found[0].len() < 4 || found[1].len() < 4 {
+        let n = packet::Nlri::V4(packet::bgp::Ipv4Net {
+            addr: Ipv4Addr::new(10, (x >> 8) as u8, x as u8, 0),
+            mask: 24,
+        });
+        let s = tm.dealer(&n);
+        if found[s].len() < 4 {
+            found[s].push(n);
+        }
+        x += 1;
+    }
+    let nets = [
+        [found[0][0].clone(), found[0][1].clone(), found[0][2].clone(), found[0][3].clone()],
+        [found[1][0].clone(), found[1][1].clone(), found[1][2].clone(), found[1][3].clone()],
+    ];
+    let cfg = case.at(0);
+    let mut lims = vec![None; NPEER];
+    for l in cfg.at(1).list() {
+        lims[l.at(0).usize()] = Some(l.at(1).u32());
+    }
+    let w = SubWorld {
+        tm,
+        srcs: (0..NPEER as u32)
+            .map(|p| {
+                Arc::new(table::Source::new(
+                    peer_addr(p),
+                    IpAddr::V4(Ipv4Addr::new(127, 0, 0, 1)),
+                    65000 + p,
+                    65000,
+                    Ipv4Addr::new(1, 1, 1, p as u8),
+                    table::PeerRole::Ebgp,
+                ))
+            })
+            .collect(),
+        attrs: (0..8u32).map(|t| mk_attrs(t % 3, false, false, &[t])).collect(),
+        nets,
+        pols: cfg
+            .at(0)
+            .list()
+            .iter()
+            .enumerate()
+            .map(|(k, peers)| {
+                let rules: Vec<Val> = peers.list().iter().map(|p| Val::L(vec![p.clone(), Val::L(vec![Val::I(1)])])).collect();
+                mk_policy(k, &rules)
+            })
+            .collect(),
+        ctrs: (0..NPEER).map(|_| Arc::new(std::sync::atomic::AtomicU64::new(0))).collect(),
+        lims,
+    };
+    let progs = case.at(1).list();
+    let n = progs.len();
+    let sched = Arc::new(Sched::new(n));
+    let slot: Mutex<Option<Subscription>> = Mutex::new(None);
+    std::thread::scope(|sc| {
+        for (i, prog) in progs.iter().enumerate() {
+            let sched = sched.clone();
+            let w = &w;
+            let slot = &slot;
+            sc.spawn(move || {
+                let s2 = sched.clone();
+                verif_sched::install(Box::new(move |_id| s2.park(i)));
+                let r = std::panic::catch_unwind(std::panic::AssertUnwindSafe(|| {
+                    for op in prog.list() {
+                        verif_sched::point(0);
+                        sub_do_op(w, op, slot);
+                    }
+                }));
+                sched.finish(i);
+                if let Err(e) = r {
+                    std::panic::resume_unwind(e);
+                }
+            });
+        }
+        for t in case.at(2).list() {
+            let i = t.usize();
+            if i < n {
+                sched.grant(i);
+            }
+        }
+        for i in 0..n {
+            while sched.grant(i) {}
+        }
+    });
+    // what the subscriber received, and its fold (bmp.rs apply_snapshot / track_peer_*)
+    let mut evs = Vec::new();
+    let mut pre: crate::bmp::verif_fold::Snapshot = FnvHashMap::default();
+    let mut post: crate::bmp::verif_fold::Snapshot = FnvHashMap::default();
+    let mut sent: FnvHashSet<IpAddr> = FnvHashSet::default();
+    let mut fwd = Vec::new();
+    let peer_of = |a: IpAddr| Val::I(nh_id(a));
+    if let Some(mut sub) = slot.lock().unwrap().take() {
+        while let Ok(e) = sub.rx.try_recv() {
+            match e {
+                BgpEvent::AdjRibIn(c) => {
+                    for nl in &c.nlris {
+                        evs.push(Val::L(vec![Val::I(0), sub_key(&w, &c.source, nl), Val::opt(c.attrs.as_ref().map(|a| sub_tok(&w, a)))]));
+                    }
+                    crate::bmp::verif_fold::apply(&mut pre, c);
+                }
+                BgpEvent::AdjRibInPost(c) => {
+                    for nl in &c.nlris {
+                        evs.push(Val::L(vec![Val::I(1), sub_key(&w, &c.source, nl), Val::opt(c.attrs.as_ref().map(|a| sub_tok(&w, a)))]));
+                    }
+                    crate::bmp::verif_fold::apply(&mut post, c);
+                }
+                BgpEvent::PeerUp(d) => {
+                    evs.push(Val::L(vec![Val::I(2), peer_of(d.peer_addr)]));
+                    crate::bmp::verif_fold::peer_up(&mut sent, d.peer_addr);
+                    fwd.push(Val::L(vec![Val::I(2), peer_of(d.peer_addr)]));
+                }
+                BgpEvent::PeerDown(d) => {
+                    evs.push(Val::L(vec![Val::I(3), peer_of(d.peer_addr)]));
+                    // a monitoring station forgets the peer's routes on Peer Down
+                    pre.remove(&d.peer_addr);
+                    post.remove(&d.peer_addr);
+                    if crate::bmp::verif_fold::peer_down(&mut sent, d.peer_addr) {
+                        fwd.push(Val::L(vec![Val::I(3), peer_of(d.peer_addr)]));
+                    }
+                }
+                BgpEvent::EndOfSnapshot => evs.push(Val::L(vec![Val::I(4)])),
+                _ => {}
+            }
+        }
+    }
+    let dump = |m: &crate::bmp::verif_fold::Snapshot| {
+        let mut v: Vec<Val> = Vec::new();
+        for pm in m.values() {
+            for ((_, nl), c) in pm {
+                v.push(Val::L(vec![sub_key(&w, &c.source, nl), sub_tok(&w, c.attrs.as_ref().unwrap())]));
+            }
+        }
+        v.sort_by_key(|x| format!("{}", x));
+        Val::L(v)
+    };
+    let mut rib_pre = Vec::new();
+    let mut rib_post = Vec::new();
+    for shard in &w.tm.shards {
+        let t = shard.lock().unwrap();
+        for r in t.rtable.iter_reach(Family::IPV4) {
+            rib_pre.push(Val::L(vec![sub_key(&w, &r.source, &r.net), sub_tok(&w, &r.attr)]));
+        }
+        for r in t.rtable.iter_reach_post(Family::IPV4) {
+            rib_post.push(Val::L(vec![sub_key(&w, &r.source, &r.net), sub_tok(&w, &r.attr)]));
+        }
+    }
+    rib_pre.sort_by_key(|x| format!("{}", x));
+    rib_post.sort_by_key(|x| format!("{}", x));
+    Val::L(vec![Val::L(evs), Val::L(rib_pre), Val::L(rib_post), dump(&pre), dump(&post), Val::L(fwd)])
+}
+
+#[test]
+fn verif_sub_cases() {
+    val::run_cases(run_sub_case);
+}
